@@ -183,6 +183,20 @@ def call(req):
         vg = VisibilityGraph(A[0], timings=A[1] if len(A) > 1 else None,
                              silence_level=3, **kw)
         return vg.adjacency
+    if fn == "linedist":
+        # a wrapper of `_line_dist` at its own boundary: S = [name, n_time, eps, dim]
+        import pyunicorn.timeseries._ext.numerics as tsn
+        f = getattr(tsn, S[0])
+        hist = A[0]
+        if "sequential" in S[0] and "missingvalues" in S[0]:
+            f(S[1], hist, A[2], A[1], S[2], S[3])
+        elif "sequential" in S[0]:
+            f(S[1], hist, A[1], S[2], S[3])
+        elif "missingvalues" in S[0]:
+            f(S[1], hist, A[1], A[2])
+        else:
+            f(S[1], hist, A[1])
+        return ("vec", hist)
     if fn == "pyx_kernel":
         # a typed-buffer kernel at its own boundary: arrays of the requested shapes
         # (random small contents), scalars as given
@@ -404,6 +418,8 @@ def main():
             out = "ok"
             if isinstance(res, tuple) and len(res) == 3 and res[0] == "cnt":
                 out = f"ok:methods_ok={res[1]},methods_raise={res[2]}"
+            if isinstance(res, tuple) and len(res) == 2 and res[0] == "vec":
+                out = "ok:" + (",".join(str(int(v)) for v in res[1]) or "-")
             if isinstance(res, tuple) and len(res) == 2 and res[0] == "mat":
                 M = res[1]
                 out = "ok:" + (";".join(",".join(str(int(v)) for v in row) or "-"
